@@ -17,7 +17,7 @@ NAME = "A"
 PROPERTY = "C07"
 RUNS = {"quick": 700, "thorough": 30000}
 RUN_WALL_CAP = 30.0
-REQUIRED_PROBES = {"quick": ["pool_branch_entered", "two_chunks_two_workers", "transposed_branch", "untransposed_branch", "unequal_alphabets", "out_of_order_completion", "single_worker_pool", "second_pool_config_compared", "same_shape_game_sequence"], "thorough": ["pool_branch_entered", "two_chunks_two_workers", "transposed_branch", "untransposed_branch", "unequal_alphabets", "out_of_order_completion", "single_worker_pool", "sixtyone_worker_pool", "second_pool_config_compared", "real_pool_crosscheck", "same_shape_game_sequence"]}
+REQUIRED_PROBES = {"quick": ["pool_branch_entered", "two_chunks_two_workers", "transposed_branch", "untransposed_branch", "unequal_alphabets", "out_of_order_completion", "single_worker_pool", "second_pool_config_compared", "same_shape_game_sequence", "serial_game_before_pool_game"], "thorough": ["pool_branch_entered", "two_chunks_two_workers", "transposed_branch", "untransposed_branch", "unequal_alphabets", "out_of_order_completion", "single_worker_pool", "sixtyone_worker_pool", "second_pool_config_compared", "real_pool_crosscheck", "same_shape_game_sequence", "serial_game_before_pool_game"]}
 COMPONENTS = {"real": ["toqito.nonlocal_games.NonlocalGame.classical_value / process_iteration", "pickle round trip of every chunk", "numpy"], "stub": ["multiprocessing.Pool -> SimPool (discrete-event, in-process, CPython 3.12 chunking and fork-snapshot semantics)", "os.cpu_count (simulated)"]}
 RULE = ("one run = a history of 1..3 games (the next one of the same shape and different contents, or a fresh shape; the first game evaluated once more at the end), each with 1001..4096 strategies on the enumerated side (all shape families, unequal alphabets and question counts, 0/1 and fractional predicates, "
         "uniform / skewed / zero-containing question distributions) x one simulated pool configuration (1..61 workers, idle-worker choice, chunk durations, stalls); "
@@ -62,6 +62,16 @@ def _run(cs, tier, run_index, M):
         games.append(draw_game(hs, like=like))
         if like is not None:
             res.probe("same_shape_game_sequence")
+    # small games (sequential branch, at most a few hundred strategies) before / between the pool games:
+    # what the sequential branch leaves in module state is what a later pool forks its workers from
+    n_small = cfg.weighted([(0, 4), (1, 3), (2, 1)])
+    if run_index % 16 == 5:
+        n_small = max(n_small, 1)
+    for j in range(n_small):
+        ss = cs.s(f"small:{j}")
+        sp, sv, sm = draw_small_game(ss)
+        games.insert(ss.draw(len(games)), (sp, sv, sm))
+        res.probe("serial_game_before_pool_game")
 
     fault = None
     if fault_run:
@@ -74,11 +84,15 @@ def _run(cs, tier, run_index, M):
         sim.cpu_count = 61
 
     objs, expected, outcomes = [], [], []
-    order = list(range(len(games))) + ([0] if len(games) > 1 else [])
+    first_pool = next(i for i, g in enumerate(games) if not g[2].get("small"))
+    order = list(range(len(games))) + ([first_pool] if len(games) > 1 else [])
     for pos, gi in enumerate(order):
         prob, pred, meta = games[gi]
         pub = {k: v for k, v in meta.items() if not k.startswith("_")}
-        if pos < len(games):
+        if pos < len(games) and meta.get("small"):
+            expected.append(models.classical_value_bf(prob, pred))
+            objs.append((M.NonlocalGame(prob, pred), prob.copy(), pred.copy()))
+        elif pos < len(games):
             res.probe("transposed_branch" if meta["enumerated"] == "alice" else "untransposed_branch")
             if "planted" in meta:
                 res.probe("planted_optimum:" + meta["planted"]["position"])
@@ -90,7 +104,7 @@ def _run(cs, tier, run_index, M):
         chunks_before = sim.chunks
         outcome = call(M, game, sim)
         outcomes.append(outcome)
-        res.log.add("pool", pos, gi, pub["shape"], pub["enumerated"], sim.max_workers, sim.chunks - chunks_before, sim.completion_order[-64:], repr(outcome[1])[:40])
+        res.log.add("pool", pos, gi, pub["shape"], pub.get("enumerated"), sim.max_workers, sim.chunks - chunks_before, sim.completion_order[-64:], repr(outcome[1])[:40])
         if fault_run and res.faults.get("worker_memoryerror"):
             # what the call does under an injected worker failure is recorded, never judged
             if outcome[0] == "exc":
@@ -107,12 +121,15 @@ def _run(cs, tier, run_index, M):
             res.violate("C07.pool.args", why="prob_mat / pred_mat changed by classical_value through the pool", **pub)
             break
     nontrivial = pool_reach(sim, res)
-    prob0, pred0 = objs[0][1], objs[0][2]
-    meta0 = {k: v for k, v in games[0][2].items() if not k.startswith("_")}
-    outcome = outcomes[0]
+    if len(objs) <= first_pool or len(outcomes) <= first_pool:
+        res.case_key = "%016x" % mix("aborted", run_index)
+        return res
+    prob0, pred0 = objs[first_pool][1], objs[first_pool][2]
+    meta0 = {k: v for k, v in games[first_pool][2].items() if not k.startswith("_")}
+    outcome = outcomes[first_pool]
     if not fault_run and second and outcome[0] == "ok" and not res.violations:
         sim2 = make_sim(cs, res, "pool2", [M], [M.NonlocalGame])
-        out2 = call(M, objs[0][0], sim2)
+        out2 = call(M, objs[first_pool][0], sim2)
         pool_reach(sim2, res)
         res.probe("second_pool_config_compared")
         res.checks_sim += 1
@@ -130,8 +147,8 @@ def _run(cs, tier, run_index, M):
         res.probe("real_pool_crosscheck")
         res.checks_sim += 1
         res.log.add("real_pool", repr(real[1])[:40])
-        if real[0] != "ok" or not _num(real[1]) or abs(float(real[1]) - expected[0]) > TOL:
-            res.violate("C07.pool.value", why="REAL multiprocessing.Pool result differs from the enumeration model", real_pool=True, got=repr(real[1])[:60], expected=expected[0], **meta0)
+        if real[0] != "ok" or not _num(real[1]) or abs(float(real[1]) - expected[first_pool]) > TOL:
+            res.violate("C07.pool.value", why="REAL multiprocessing.Pool result differs from the enumeration model", real_pool=True, got=repr(real[1])[:60], expected=expected[first_pool], **meta0)
         elif outcome[0] == "ok" and _num(outcome[1]) and abs(float(real[1]) - float(outcome[1])) > TOL:
             raise AssertionError("SimPool and the real pool disagree: %r vs %r" % (outcome[1], real[1]))
     res.nontrivial = nontrivial and not fault_run
@@ -139,6 +156,27 @@ def _run(cs, tier, run_index, M):
     res.interleaving = "%016x" % mix(sim.max_workers, tuple(sim.completion_order))
     res.sample = {"games": [{k: v for k, v in g[2].items() if not k.startswith("_")} for g in games], "call_order": order, "workers": sim.max_workers, "chunks": sim.chunks, "completion_order_head": sim.completion_order[:16], "stall_permille": sim.stall_permille, "fault_population": fault_run, "values": [repr(o[1])[:24] for o in outcomes], "models": expected}
     return res
+
+
+def draw_small_game(st):
+    """A game of the sequential branch: 2..3 answers, 2..3 questions per player."""
+    a_out, b_out, a_in, b_in = st.int_range(2, 3), st.int_range(2, 3), st.int_range(2, 3), st.int_range(2, 3)
+    rng = st.nprng()
+    kind = st.draw(3)
+    shape = (a_out, b_out, a_in, b_in)
+    if kind == 0:  # won with certainty: the largest value any game can have
+        f, g = rng.integers(0, a_out, size=a_in), rng.integers(0, b_out, size=b_in)
+        pred = rng.random(shape) * 0.2
+        for x in range(a_in):
+            for y in range(b_in):
+                pred[f[x], g[y], x, y] = 1.0
+    elif kind == 1:
+        pred = (rng.random(shape) < 0.5).astype(float)
+    else:
+        pred = rng.random(shape)
+    prob = rng.random((a_in, b_in)) + 0.05
+    prob = prob / prob.sum()
+    return prob, pred, {"shape": list(shape), "small": True, "pred_kind": ["won_with_certainty", "binary", "fractional"][kind], "enumerated": None, "strategies": min(a_out**a_in, b_out**b_in)}
 
 
 def call(M, game, sim):
